@@ -86,8 +86,9 @@ CLAIMED = {
         text="Contract-based deductive proof: interpolation closed form and the STRONGEST postcondition of spreading over the "
              "whole grid (every cell accumulates exactly its window contributions; overlapping/identical supports; prior content "
              "kept) for arbitrary weight arrays, scalar and vector, 2-D/3-D, markers in symbolic cells. Adjointness, total force "
-             "and first moment are corollaries of the two closed forms using the same weights and window (sum exchange lemma) "
-             "together with C06.",
+             "and first moment are corollaries of the two closed forms using the same weights and window (sum exchange lemma); "
+             "the premise on the REAL weights (partition of unity of the real weight kernels, vanishing first moment for Peskin, "
+             "marker on a cell centre and strictly inside forked) is discharged in this check as well (clauses shared with C06).",
         note=TRUST + " Two markers executed (all relative placements, since cells are symbolic); the marker loop for N>2 by the "
              "additive per-marker postcondition.",
         technique="symbolic execution of the real njit closures + z3 (LIA + linear real arithmetic)",
